@@ -67,13 +67,14 @@ CLAIMED = {
    technique="TLA+ theory of network views + TLC-enumerated networks replayed into the code + TLC judging recorded round trips"),
  "C07": dict(
    text="MatcherSession.tla models query histories of engines with different attribute selections sharing one histogram cache; TLC proves AnswerIsPure for the "
-        "contract (cache keyed by object and selection) and must find the counterexample for a cache keyed by the object only. Conformance: sessions of 60+ "
+        "contract (cache keyed by object and selection) and must find the counterexample for a cache keyed by the object only; Apalache discharges an "
+        "inductive invariant for an unbounded number of queries (and must fail it for the object-keyed cache). Conformance: sessions of 60+ "
         "queries (isomorphic in both argument orders, get_mappings, graph_isomorphism, find_graph_isomorphism, three boolean subgraph tests, every filter "
         "flag on/off, induced and monomorphism mode, two attribute selections) run in random order on SHARED networkx objects built from all TLC-enumerated "
         "graph pairs <=2 nodes (exhaustive), sampled pairs <=3/4 nodes, random pairs <=8 nodes with relabelled copies and one-edit neighbours, plus targeted "
         "query histories; TLC judges every answer against LGraph (IsosHostRule, IsIso, Embeddings, Monos) and checks filter invariance.",
    ref="DESIGN.md §3 C07",
-   technique="TLA+ state machine of query histories model-checked by TLC + TLC judging recorded query sessions of the real engines"),
+   technique="TLA+ state machine of query histories model-checked by TLC (bounded) and Apalache (inductive invariant) + TLC judging recorded query sessions of the real engines"),
  "C08": dict(
    text="Families of networkx objects (a TLC-enumerated graph, relabelled copies with shuffled insertion orders, one-edit look-alikes, another graph) are "
         "canonicalised by every back-end (generic, wl, morgan, nauty; wrapper hash and canonical_signature; NautyCanonicalizer directly; SynGraph equality); "
